@@ -146,6 +146,9 @@ pub struct EntryDef {
     /// WGSL expressions for @workgroup_size (1..3), compute only
     #[serde(default)]
     pub wg: Vec<String>,
+    /// upper-case form of the name (filled in by the driver; the generator derives constant names from it)
+    #[serde(default)]
+    pub upper: String,
 }
 
 #[derive(Deserialize, Serialize, Clone, Debug)]
